@@ -76,7 +76,7 @@ func (x *Exec) callFuncValue(fr *Frame, st *State, fv *FuncV, cc *ssa.CallCommon
 	}
 	// symbolic function value: abstract contract keyed by its origin (struct field), with an optional list of
 	// candidate functions: the call is then split over the candidates (each used by its own contract)
-	c := x.prog.Ifaces[fv.Name]
+	c := x.ifaceContract(fv.Name)
 	if c == nil {
 		x.unmodelled["call of function value "+fv.Name] = true
 		k(st, x.havocResult(st, cc.Signature().Results(), "fv"))
@@ -207,14 +207,14 @@ func ifaceKey(t types.Type, method string) string {
 
 func (x *Exec) invokeSymbolic(fr *Frame, st *State, iv *IfaceV, cc *ssa.CallCommon, args []SVal, pos token.Pos, k func(*State, SVal)) {
 	key := ifaceKey(cc.Value.Type(), cc.Method.Name())
-	if c := x.prog.Ifaces[key]; c != nil {
+	if c := x.ifaceContract(key); c != nil {
 		x.applyContract(fr, st, c, key, iv, args, cc.Signature(), pos, k)
 		return
 	}
 	// static type may be a wider/narrower interface: try the static type recorded on the value
 	if iv.Static != nil {
 		key2 := ifaceKey(iv.Static, cc.Method.Name())
-		if c := x.prog.Ifaces[key2]; c != nil {
+		if c := x.ifaceContract(key2); c != nil {
 			x.applyContract(fr, st, c, key2, iv, args, cc.Signature(), pos, k)
 			return
 		}
@@ -1283,8 +1283,14 @@ func (x *Exec) builtinModel(fr *Frame, st *State, fn *ssa.Function, name string,
 			if fmtc, isC := args[1].(*Term); isC && fmtc == x.strConst("%c") {
 				if va, isS := args[2].(*SliceV); isS && va.Len.IsConst() && va.Len.val.Int64() == 1 {
 					el := x.readElem(st, va.Obj, va.Off, nil, va.Elem)
-					if iv, isI := el.(*IfaceV); isI && iv.Dyn != nil {
-						if ch, isT := iv.Val.(*Term); isT && ch.sort == BV(32) {
+					if iv, isI := el.(*IfaceV); isI && (iv.Dyn != nil || iv.Tag == x.typeTag(types.Typ[types.Int32]) || iv.Tag == x.typeTag(types.Universe.Lookup("rune").Type())) {
+						var ch *Term
+						if iv.Dyn != nil {
+							ch, _ = iv.Val.(*Term)
+						} else {
+							ch, _ = x.payloadFor(st, iv, types.Typ[types.Int32]).(*Term)
+						}
+						if isT := ch != nil; isT && ch.sort == BV(32) {
 							model()
 							x.sbAppend(st, w.Val.(*PtrV), ch)
 							k(st, &TupleV{Vals: []SVal{tb.Fresh("fprintf.n", BV(64)), &IfaceV{Tag: tb.Intc(0), Id: tb.Intc(0)}}})
@@ -1677,4 +1683,19 @@ func (x *Exec) mapSize(st *State, m *OpaqueV) *Term {
 	st.Assume(x.tb.BVCmp("bvslt", v, x.tb.BVi(64, 1<<40)))
 	st.ghost[key] = v
 	return v
+}
+
+// ifaceContract: environment contracts are per package (the client and the server packages assume different
+// things about net.Conn); the package of the function under verification decides.
+func (x *Exec) ifaceContract(key string) *Contract {
+	pk := ""
+	if x.fn.Pkg != nil {
+		pk = shortPkg(x.fn.Pkg.Pkg.Path())
+	} else if x.fn.Parent() != nil && x.fn.Parent().Pkg != nil {
+		pk = shortPkg(x.fn.Parent().Pkg.Pkg.Path())
+	}
+	if c := x.prog.Ifaces[pk+"|"+key]; c != nil {
+		return c
+	}
+	return nil
 }
